@@ -501,7 +501,7 @@ def run_shard(spec, rec):
         rec.case(("walk",) + c02.signature(jc), bool(nt), sample=jc if i == 0 else None, features=["walk:harness-scheme"])
         determinism_and_inputs(jc, rec, fp, ["TrustRegionReflection", "Dogbox", "Levenberg-Marquardt"][i % 3] if not any("min" in p or "max" in p for p in jc["parameters"].values()) else ["TrustRegionReflection", "Dogbox"][i % 2])
         if i % 3 == 0:
-            kind = KINDS[(i // 3 + spec["shard"]) % 5]
+            kind = (KINDS + ["spectral_axis_scale"])[(i // 3 + spec["shard"]) % 6]
 
             def kb(kind=kind):
                 s = build_kinetic(kind, 3)
